@@ -222,7 +222,17 @@ class SimSocket:
         self.connect_calls.append(address)
         self.net.connect(self, address)
 
+    # what recv() hands out: bytes (as every stdlib socket does) or, for a scenario with a transport built on recv_into() and a pooled
+    # buffer, bytearray
+    recv_type = bytes
+
     def recv(self, bufsize, flags=0):
+        out = self._recv_bytes(bufsize, flags)
+        if SimSocket.recv_type is bytearray and isinstance(out, bytes):
+            return bytearray(out)
+        return out
+
+    def _recv_bytes(self, bufsize, flags=0):
         c = self.conn
         if self._closed:
             if c is not None:
@@ -499,13 +509,13 @@ class SimTLSSocket(SimSocket, _ssl_mod.SSLSocket):
                 s.yield_point("io", "recv")
             out, self._plain = self._plain[:bufsize], self._plain[bufsize:]
             self._log("recv", bufsize, out)
-            return out
+            return bytearray(out) if SimSocket.recv_type is bytearray else out
         # pull one whole record
         c = self.conn
         prev_max = c.max_recv_req if c is not None else 0
         self._tls_pull = True  # the log records what the library is handed (plaintext pieces), not the record pulled underneath
         try:
-            rec = SimSocket.recv(self, 1 << 30)
+            rec = SimSocket._recv_bytes(self, 1 << 30)
         except BlockingIOError:
             # what a non-blocking ssl.SSLSocket raises when no complete record is there yet
             import ssl as _ssl
@@ -517,7 +527,7 @@ class SimTLSSocket(SimSocket, _ssl_mod.SSLSocket):
         out, self._plain = rec[:bufsize], rec[bufsize:]
         if rec:
             self._log("recv", bufsize, out)
-        return out
+        return bytearray(out) if SimSocket.recv_type is bytearray else out
 
     def unwrap(self):
         """TLS shutdown as ssl.SSLSocket.unwrap() does it: send close_notify, then wait (within the socket timeout) for the peer's;
